@@ -488,6 +488,41 @@ def gen_c03_pairs(rng, index: int) -> Dict[str, Any]:
     return {"engine": "tcp", "config": cfg, "steps": uidify(steps), "case": [case[0], list(case[1]), list(case[2]) if case[2] else None]}
 
 
+def c03_triples() -> List[tuple]:
+    kinds = all_op_kinds()
+    return [(a, b, c) for a in kinds for b in kinds for c in kinds if a[0] == b[0] == c[0]]
+
+
+_C03_TRIPLES = None
+
+
+def gen_c03_triples(rng, index: int) -> Dict[str, Any]:
+    """Systematic: every sequence of three operations on one instance."""
+    global _C03_TRIPLES
+    if _C03_TRIPLES is None:
+        _C03_TRIPLES = c03_triples()
+    case = _C03_TRIPLES[index % len(_C03_TRIPLES)]
+    cfg = base_config(rng)
+    devices, clients = make_clients(rng, 1, [case[0][0]])
+    cfg["devices"], cfg["clients"] = devices, clients
+    steps = [{"kind": "connect", "client": 0}]
+    for k in case:
+        st = gen_op(rng, k[1], clients[0])
+        st["client"] = 0
+        st["replies"] = [{"mode": "ok", "delay": heavy_delay(rng)} for _ in range(4)]
+        st["gap"] = rng.choice([0.0, 1.5, 60.0])
+        steps.append(st)
+    steps.append({"kind": "disconnect", "client": 0})
+    return {"engine": "tcp", "config": cfg, "steps": uidify(steps), "case": [list(k) for k in case]}
+
+
+def c03_triple_count() -> int:
+    global _C03_TRIPLES
+    if _C03_TRIPLES is None:
+        _C03_TRIPLES = c03_triples()
+    return len(_C03_TRIPLES)
+
+
 C03_PAIR_CASES = len(all_op_kinds()) + sum(1 for a in all_op_kinds() for b in all_op_kinds() if a[0] == b[0]) + len(all_op_kinds()) ** 2
 
 
